@@ -162,37 +162,38 @@ def put (s : CState) (now : Nat) (m : Msg) : CState × List Out :=
 
 /-- `put_delivery(id, submit_sm)` -/
 def putDelivery (s : CState) (now : Nat) (id : List Nat) (m : Msg) : CState × List Out :=
-  let (s1, outs) := removeExpired s now
-  ({ s1 with delivStore := aset s1.delivStore id (now, m) }, outs)
+  ({ (removeExpired s now).1 with delivStore := aset (removeExpired s now).1.delivStore id (now, m) },
+   (removeExpired s now).2)
+
+/-- the segment status after a response for segment `sseq` -/
+def respStatus (st : SegStatus) (sseq : Nat) (resp : Msg) : SegStatus :=
+  if resp.kind = .genericNack then
+    { st with status := aset st.status sseq sFailed, lastResponse := some resp }
+  else if resp.status = 0 then
+    { st with status := aset st.status sseq sSent,
+              lastResponse := if st.lastResponse.isSome then st.lastResponse else some resp }
+  else
+    { st with status := aset st.status sseq sFailed, lastResponse := some resp }
+
+/-- the per-segment status update `get` makes for a response to a registered segment -/
+def updateSegOnResponse (s0 : CState) (resp m : Msg) : CState :=
+  if m.isSubmitLike then
+    match aget s0.segStore resp.seq with
+    | some (ref, sseq) =>
+      match aget s0.segStatus ref with
+      | some st => { s0 with segStatus := aset s0.segStatus ref (respStatus st sseq resp) }
+      | none => s0
+    | none => s0
+  else s0
 
 /-- `get(response)` -/
 def get (s : CState) (now : Nat) (resp : Msg) : CState × List Out × Option Msg :=
   match aget s.store resp.seq with
-  | none =>
-    let (s1, outs) := removeExpired s now
-    (s1, outs, none)
+  | none => ((removeExpired s now).1, (removeExpired s now).2, none)
   | some (_, m) =>
-    let s0 := { s with store := adel s.store resp.seq }
-    let s1 :=
-      if m.isSubmitLike then
-        match aget s0.segStore resp.seq with
-        | some (ref, sseq) =>
-          match aget s0.segStatus ref with
-          | some st =>
-            let st' :=
-              if resp.kind = .genericNack then
-                { st with status := aset st.status sseq sFailed, lastResponse := some resp }
-              else if resp.status = 0 then
-                { st with status := aset st.status sseq sSent,
-                          lastResponse := if st.lastResponse.isSome then st.lastResponse else some resp }
-              else
-                { st with status := aset st.status sseq sFailed, lastResponse := some resp }
-            { s0 with segStatus := aset s0.segStatus ref st' }
-          | none => s0
-        | none => s0
-      else s0
-    let (s2, outs) := removeExpired s1 now
-    (s2, outs, some m)
+    ((removeExpired (updateSegOnResponse { s with store := adel s.store resp.seq } resp m) now).1,
+     (removeExpired (updateSegOnResponse { s with store := adel s.store resp.seq } resp m) now).2,
+     some m)
 
 /-- `get_segmented(seq, remove)` -/
 def getSegmented (s : CState) (seq : Nat) (remove : Bool) : CState × Option SegStatus × Int :=
@@ -293,33 +294,38 @@ def fixLast (s : CState) (resp resp' : Msg) : CState :=
     | none => s
   | none => s
 
-/-- `_handle_response` after a successful parse of an accepted response type -/
+/-- wrong response type for the request found under the number (`generic_nack` fits all) -/
+def mismatch (resp o : Msg) : Bool :=
+  if resp.kind = .genericNack then false
+  else match requestKindOf resp.kind with
+    | some k => o.kind ≠ k
+    | none => false
+
+/-- `isinstance(resp, (SubmitSmResp, GenericNack)) and isinstance(original, SubmitSm)` -/
+def attributable (resp o : Msg) : Bool :=
+  (resp.kind = .submitSmResp || resp.kind = .genericNack) && o.isSubmitLike
+
+/-- `_handle_response` after a successful parse of an accepted response type:
+    (state, hook calls of the sweeps, throttle-handler calls, what the hook is handed) -/
 def handleResponse (s : CState) (now : Nat) (resp : Msg) :
     CState × List Out × List ThrottleCall × Handled :=
-  let (s1, outs, orig) := get s now resp
-  match orig with
-  | none => (s1, outs, [], .msg resp)
+  match (get s now resp).2.2 with
+  | none => ((get s now resp).1, (get s now resp).2.1, [], .msg resp)
   | some o =>
-    let mismatch : Bool :=
-      if resp.kind = .genericNack then false
-      else match requestKindOf resp.kind with
-        | some k => o.kind ≠ k
-        | none => false
-    if mismatch then (s1, outs, [], .dropped)
-    else if (resp.kind = .submitSmResp || resp.kind = .genericNack) && o.isSubmitLike then
+    if mismatch resp o then ((get s now resp).1, (get s now resp).2.1, [], .dropped)
+    else if attributable resp o then
       let tc := if isThrottleStatus resp.status then [ThrottleCall.throttled] else [.notThrottled]
       let resp' := { resp with logId := o.logId, extra := o.extra }
-      let s1 := fixLast s1 resp resp'
+      let s1 := fixLast (get s now resp).1 resp resp'
       if resp.kind = .submitSmResp ∧ resp.status = 0 then
-        let (s2, outs2) := putDelivery s1 now resp.msgId o
-        let (s3, st, code) := getSegmented s2 resp.seq false
-        match st with
-        | some st =>
-          if code = sSending then (s3, outs ++ outs2, tc, .placeholder)
-          else (s3, outs ++ outs2, tc, .msg (st.lastResponse.getD resp'))
-        | none => (s3, outs ++ outs2, tc, .msg resp')
-      else (s1, outs, tc, .msg resp')
-    else (s1, outs, [], .msg resp)
+        let pd := putDelivery s1 now resp.msgId o
+        let gs := getSegmented pd.1 resp.seq false
+        (gs.1, (get s now resp).2.1 ++ pd.2, tc,
+          match gs.2.1 with
+          | some st => if gs.2.2 = sSending then .placeholder else .msg (st.lastResponse.getD resp')
+          | none => .msg resp')
+      else (s1, (get s now resp).2.1, tc, .msg resp')
+    else ((get s now resp).1, (get s now resp).2.1, [], .msg resp)
 
 /-- `_handle_request` for a parsed DeliverSm (state, hook calls of the sweep, result) -/
 def handleDeliver (s : CState) (now : Nat) (d : Msg) : CState × List Out × Handled :=
